@@ -141,7 +141,7 @@ def run_case(lines):
                 if out is None:
                     print(d.fault()); dead = True
                 else:
-                    print("out %s fired=?" % hx(out))
+                    print("out %s fired=*" % hx(out))
             elif f[0] == "reload":
                 body = unhx(f[1])
                 for x in f[2:]:
